@@ -14,6 +14,9 @@
     X <node> <obj> <now>| <obsA> | <obsB>        two overlapping authority runs = one
     N <node> <now>      | <obsA> | <obsB>        notification requested
     D <node> <obj> <now>| <obsA> | <obsB>        object <obj> due for a check   (F: the same, its command held in flight until R)
+    A <node> <obj> <now>| <obsA> | <obsB>        object <obj> deleted and created anew at runtime
+    G <node> <obj> <now> [<how>] | <obsA> | <obsB>   object <obj> (a checkable) has to request a notification itself: suppressed-notifications
+                                                     timer with one pending / acknowledgement / processed check result with a hard state change
     R <node> <now>      | <obsA> | <obsB>        held check released
     E <node> <peer> <b> | <obsA> | <obsB>        local endpoint state other than "connected" scrambled
     T <node> <now>      | f=<seq> <obs>... | f=- <obs>     seq over a (authority timer) / n (notification timer), or -
@@ -56,6 +59,15 @@ def parseObj (s : String) : Option ImplObj :=
     let ex ← parseNat? ex
     let st ← parseNat? st
     pure { o := { paused := p, pauses := pc, resumes := rc, execs := ex, stash := st }, setp := sp }
+  | [p, pc, rc, sp, ex, st, rq] => do
+    let p ← parseBool? p
+    let pc ← parseNat? pc
+    let rc ← parseNat? rc
+    let sp ← parseNat? sp
+    let ex ← parseNat? ex
+    let st ← parseNat? st
+    let rq ← parseNat? rq
+    pure { o := { paused := p, pauses := pc, resumes := rc, execs := ex, stash := st, reqs := rq }, setp := sp }
   | _ => none
 
 /-- `none` = unparsable, `some none` = node not started, `some (some l)` = observation. -/
@@ -64,10 +76,10 @@ def parseObs (s : String) : Option (Option (List ImplObj)) :=
   else (s.splitOn ",").mapM parseObj |>.map some
 
 def showObjs (l : List Obj) : String :=
-  ",".intercalate (l.map fun o => s!"{showBool o.paused}:{o.pauses}:{o.resumes}:{o.pauses + o.resumes}:{o.execs}:{o.stash}")
+  ",".intercalate (l.map fun o => s!"{showBool o.paused}:{o.pauses}:{o.resumes}:{o.pauses + o.resumes}:{o.execs}:{o.stash}:{o.reqs}")
 
 def showImpl (l : List ImplObj) : String :=
-  ",".intercalate (l.map fun i => s!"{showBool i.o.paused}:{i.o.pauses}:{i.o.resumes}:{i.setp}:{i.o.execs}:{i.o.stash}")
+  ",".intercalate (l.map fun i => s!"{showBool i.o.paused}:{i.o.pauses}:{i.o.resumes}:{i.setp}:{i.o.execs}:{i.o.stash}:{i.o.reqs}")
 
 structure DSt where
   layout : Layout := .noZone
@@ -106,6 +118,9 @@ structure DSt where
   silentChecks : Nat := 0
   releases : Nat := 0
   held : Nat := 0
+  creates : Nat := 0
+  fires : Nat := 0
+  firesOnPaused : Nat := 0
   endpointScrambles : Nat := 0
   stateRestarts : Nat := 0
   specOffCases : Nat := 0
@@ -155,7 +170,8 @@ def cmpNode (d : DSt) (n : Nat) (tag : String) (m : Option Node) (io : Option (L
       -- compared: paused, #Pause(), #Resume(), #command executions.  NOT compared (internal bookkeeping the property does
       -- not speak about, DESIGN.md §0.3): the number of SetPaused notifications and the length of the stash
       (List.zipWith (fun (o : Obj) (i : ImplObj) =>
-        o.paused == i.o.paused && o.pauses == i.o.pauses && o.resumes == i.o.resumes && o.execs == i.o.execs) node.objs il).all id
+        o.paused == i.o.paused && o.pauses == i.o.pauses && o.resumes == i.o.resumes && o.execs == i.o.execs &&
+        o.reqs == i.o.reqs) node.objs il).all id
     if ok then return { d with objChecks := d.objChecks + il.length }
     else
       IO.println s!"MISMATCH line={n} case={d.caseNo} node={tag} impl={showImpl il} model={showObjs node.objs}"
@@ -194,7 +210,7 @@ def runSpec (d : DSt) (n : Nat) (ef : Nat → Ev) (ia ib : Option (List ImplObj)
     let (r, sp') := specStep d.layout c sp e oa ob
     -- evidence: work events that hit a paused object
     let prevOwn := match e.side with | .A => sp.a.prev | .B => sp.b.prev
-    let isWork := match e with | .request _ => c.kind == .notification | .ntimer _ => c.kind == .notification | .due _ => c.kind == .checkable | _ => false
+    let isWork := match e with | .request _ => c.kind == .notification | .ntimer _ => c.kind == .notification | .due _ => c.kind == .checkable | .fire _ => c.kind == .checkable | _ => false
     if isWork && prevOwn.paused then d := { d with silentChecks := d.silentChecks + 1 }
     specs := specs.setIfInBounds i sp'
     if touched c && sp'.a.mode == .paired && sp'.b.mode == .paired then
@@ -260,6 +276,25 @@ def applyEvent (d : DSt) (s : Side) (op : String) (pre : List String) (own : Opt
     | some idx, some node =>
       let d := setNode d s (some (node.due d.cfgs.toList idx))
       some ({ d with dues := d.dues + 1 }, fun i => if i == idx then Ev.due s else Ev.idle s)
+    | some _, none => some (d, fun _ => Ev.idle s)
+    | none, _ => none
+  | "A", [_, _, idx, _now] =>
+    -- the object is created at runtime: a new object; the model's stash of the old one goes with it
+    match parseNat? idx, getNode d s with
+    | some idx, some node =>
+      let d := setNode d s (some (node.create d.cfgs.toList idx))
+      some ({ d with creates := d.creates + 1 }, fun i => if i == idx then Ev.create s else Ev.idle s)
+    | some _, none => some (d, fun _ => Ev.idle s)
+    | none, _ => none
+  | "G", _ :: _ :: idx :: _now :: _how =>
+    -- how the checkable comes to request a notification itself (suppressed-notifications timer, acknowledgement, processed check
+    -- result) makes no difference to the property: the member in charge of the checkable requests it, once, and no other
+    match parseNat? idx, getNode d s with
+    | some idx, some node =>
+      let onPaused := match node.objs[idx]? with | some o => o.paused | none => false
+      let d := setNode d s (some (node.fire d.cfgs.toList idx))
+      some ({ d with fires := d.fires + 1, firesOnPaused := d.firesOnPaused + (if onPaused then 1 else 0) },
+        fun i => if i == idx then Ev.fire s else Ev.idle s)
     | some _, none => some (d, fun _ => Ev.idle s)
     | none, _ => none
   | "Ta", [now] =>
@@ -431,4 +466,4 @@ def handle (d : DSt) (n : Nat) (line : String) : IO DSt := do
 def main : IO Unit := do
   let stdin ← IO.getStdin
   let d ← foldLines stdin handle ({} : DSt)
-  IO.println s!"STATS cases={d.caseNo} steps={d.steps} updates={d.updates} timer_fired={d.timerFired} timer_idle={d.timerIdle} boots={d.boots} links={d.links} hashes={d.hashes} hashes_with_negative_char={d.hashNeg} objects={d.objects} object_observations={d.objChecks} verdict_keep={d.vKeep} verdict_true={d.vTrue} verdict_false={d.vFalse} settled_rows={d.settledRows} races={d.races} requests={d.requests} notification_timer_runs={d.ntimers} due_checks={d.dues} work_events_on_paused_object={d.silentChecks} checks_held_in_flight={d.held} endpoint_state_scrambles={d.endpointScrambles} restarts_via_state_file={d.stateRestarts} further_connections_attached={d.extraConns} one_of_several_connections_closed={d.closedOneOfSeveral} cases_nozone={d.casesN} cases_single={d.casesS} cases_pair={d.casesP} cases_pair_extra={d.casesExtra} cases_pair_extra_left_to_model_comparison={d.specOffCases} nontrivial={d.nontrivial} mismatches={d.mismatches} specfails={d.specfails}"
+  IO.println s!"STATS cases={d.caseNo} steps={d.steps} updates={d.updates} timer_fired={d.timerFired} timer_idle={d.timerIdle} boots={d.boots} links={d.links} hashes={d.hashes} hashes_with_negative_char={d.hashNeg} objects={d.objects} object_observations={d.objChecks} verdict_keep={d.vKeep} verdict_true={d.vTrue} verdict_false={d.vFalse} settled_rows={d.settledRows} races={d.races} requests={d.requests} notification_timer_runs={d.ntimers} due_checks={d.dues} work_events_on_paused_object={d.silentChecks} checks_held_in_flight={d.held} runtime_creations={d.creates} suppressed_timer_runs_with_pending={d.fires} suppressed_timer_runs_on_paused_checkable={d.firesOnPaused} endpoint_state_scrambles={d.endpointScrambles} restarts_via_state_file={d.stateRestarts} further_connections_attached={d.extraConns} one_of_several_connections_closed={d.closedOneOfSeveral} cases_nozone={d.casesN} cases_single={d.casesS} cases_pair={d.casesP} cases_pair_extra={d.casesExtra} cases_pair_extra_left_to_model_comparison={d.specOffCases} nontrivial={d.nontrivial} mismatches={d.mismatches} specfails={d.specfails}"
